@@ -303,7 +303,9 @@ theorem add_nodup (st st' : St) (r : Rec) (h : NoDup st) (he : add st r = .ok st
       split at he
       · rename_i i hfound
         obtain ⟨hi, _⟩ := findIdx_some_lt _ _ _ hfound
-        exact addLinkOnto_nodup st st' r l i h hi he
+        split at he
+        · cases he
+        · exact addLinkOnto_nodup st st' r l i h hi he
       · exact addLinkFresh_nodup st st' r h he
   · split at he
     · exact register_nodup st st' r h he
